@@ -222,6 +222,10 @@ func handleExceptionSignal(vm *r.VM, blockModule *r.Module, catchBlock []*syntax
 				// get return value from exception block
 				rtnValue := vm.GetReturnValue()
 				vm.PopCallFrame()
+				// a handler without 输出 yields 空
+				if rtnValue == nil {
+					rtnValue = value.NewNull()
+				}
 
 				return rtnValue, nil
 			}
